@@ -82,7 +82,7 @@ PROPS = {
                      "A-FIELD: Fq and Fq2 are fields (a square has only the roots y, -y)", "A-ODD: neither curve has a point with y = 0 (numerically re-checked each run: -b is not a cube)", A['TOOLS']],
     ),
     'C06': dict(
-        standins=['expand_message_hash_to_field'],
+        standins=['expand_message_hash_to_field', 'hash_to_curve_api'],
         units_quick=['h2c', 'sswu', 'sswuhelp', 'symx:iso', 'cofactor', 'expand'], units_thorough=['h2c', 'sswu', 'sswuhelp', 'symx:iso', 'cofactor', 'expand', 'curve', 'okm', 'consts'], timeout=1800,
         claim="PARTIAL (composition; the parts it composes are run by this check as well: SSWU C15, isogeny C16, cofactor clearing C17): hash_to_curve(msg,dst) = map2_to_curve(u[0],u[1]) with u = hash_to_field(msg,dst,2) and encode_to_curve = "
               "map_to_curve(hash_to_field(msg,dst,1)[0]): element count, indices and which map are verified on the real generic bodies; the result is "
